@@ -83,6 +83,17 @@ class SymEnv(Env):
         self.hole_terms[name] = v.e
         return v
 
+    def hole_seq(self, name, maxlen=None):
+        """a byte sequence of symbolic length (z3 Seq); elements constrained to 0..255 by quantifier-free
+        facts added where elements are read (see SeqList.byte_facts)"""
+        from .lists import SeqList
+        s = SeqList.fresh("h_" + name)
+        self.hole_terms[name] = s.seq
+        if maxlen is not None:
+            self.path.assume(z3.Length(s.seq) <= maxlen)
+        s.bytes_only = True
+        return s
+
     def hole_choice(self, name, options):
         """a hole that is enumerated by forking (small finite domains)"""
         idx = self.hole_int(name, 0, len(options) - 1)
@@ -113,6 +124,10 @@ class SymEnv(Env):
     def _model_holes(self, model):
         out = {}
         for k, t in self.hole_terms.items():
+            if z3.is_seq(t):
+                n = model.eval(z3.Length(t), model_completion=True).as_long()
+                out[k] = [model.eval(t[i], model_completion=True).as_long() for i in range(min(n, 100000))]
+                continue
             v = model.eval(t, model_completion=True)
             out[k] = v.as_long()
         return out
@@ -121,10 +136,26 @@ class SymEnv(Env):
         t0 = time.time()
         if isinstance(cond, SymBool):
             cond = cond.e
+        if cond is not True and cond is not False:
+            sc = z3.simplify(cond)
+            if z3.is_true(sc):
+                cond = True
         if cond is True:
             self.outcomes.append(Outcome(clause, props, "discharged", ms=0.0))
             return True
         s = self.path.solver
+        if self.path.light is not None:
+            # sequence theory present: z3's in-process timeout is not reliable there; run the query in a separate
+            # process with a hard limit.  unsat -> discharged; anything else -> undecided (a witness is then looked
+            # for by the lemma's bounded probes, natively)
+            r, why = external_unsat(s, cond, self.timeout_ms)
+            self.path.nqueries += 1
+            self.path.solver_s += time.time() - t0
+            if r == "unsat":
+                self.outcomes.append(Outcome(clause, props, "discharged", ms=(time.time() - t0) * 1000))
+                return True
+            self.outcomes.append(Outcome(clause, props, "undecided", ms=(time.time() - t0) * 1000, detail="external:%s" % why))
+            return False
         s.push()
         try:
             if cond is not False:
@@ -144,6 +175,41 @@ class SymEnv(Env):
             s.pop()
 
 
+def external_unsat(solver, cond, timeout_ms):
+    """check  assertions(solver) AND NOT cond  with the z3 CLI (then cvc5) under a hard wall-clock limit"""
+    import subprocess
+    import tempfile
+    work = os.path.join(os.path.dirname(os.path.dirname(os.path.abspath(__file__))), ".work", "smt")
+    os.makedirs(work, exist_ok=True)
+    s2 = z3.Solver()
+    s2.add(solver.assertions())
+    if cond is not False:
+        s2.add(z3.Not(cond))
+    text = s2.to_smt2()
+    fd, path = tempfile.mkstemp(suffix=".smt2", dir=work)
+    with os.fdopen(fd, "w") as f:
+        f.write(text)
+    secs = max(2, int(timeout_ms / 1000))
+    why = "?"
+    try:
+        for cmd in (["z3-new", "-T:%d" % secs, path], ["/usr/bin/z3", "-T:%d" % secs, path]):
+            try:
+                out = subprocess.run(cmd, capture_output=True, text=True, timeout=secs + 3).stdout.strip().split("\n")[0]
+            except (subprocess.TimeoutExpired, OSError):
+                out = "timeout"
+            if out == "unsat":
+                return "unsat", cmd[0]
+            why = out
+            if out == "sat":
+                return "sat", cmd[0]
+        return "unknown", why
+    finally:
+        try:
+            os.unlink(path)
+        except OSError:
+            pass
+
+
 class NativeEnv(Env):
     mode = "native"
 
@@ -159,6 +225,9 @@ class NativeEnv(Env):
 
     def hole_choice(self, name, options):
         return options[self.holes[name]]
+
+    def hole_seq(self, name, maxlen=None):
+        return list(self.holes[name])
 
     def assume(self, cond):
         if not cond:
@@ -264,6 +333,18 @@ def explore_cell(lemma, cell, interp, timeout_ms=10000, max_paths=4000, replay=T
                 if replay:
                     f.update(native_replay(lemma, cell, o.holes, o.clause))
                 res.failures.append(f)
+    # bounded probes: when an obligation of this cell is undecided (or refuted without a native witness) look for a
+    # concrete failing input natively among the lemma's probe inputs; a hit is a replayed violation
+    needs = bool(res.undecided) or any(f.get("native") == "spurious" for f in res.failures)
+    if needs and replay and hasattr(lemma, "probes"):
+        for holes in lemma.probes(cell):
+            r = native_replay(lemma, cell, holes, None)
+            if r["native"] == "confirmed":
+                res.failures.append({"clause": (res.undecided[0]["clause"] if res.undecided else res.failures[0]["clause"]),
+                                     "props": sorted(set(p for c in res.clauses.values() for p in c["props"])),
+                                     "holes": holes, "native": "confirmed", "signature": "probe:%s" % r["signature"],
+                                     "info": r["info"]})
+                break
     res.wall_s = time.time() - t0
     return res
 
@@ -298,8 +379,10 @@ def native_replay(lemma, cell, holes, clause, timeout_s=5.0):
         out["native"] = "confirmed"
         out["signature"] = same[0].detail
     elif fails:
-        out["native"] = "confirmed-other-clause"
-        out["signature"] = "%s:%s" % (fails[0].clause, fails[0].detail)
+        # internal proof obligations (invariants, pre@call, decreases) have no native counterpart of their own:
+        # the native run evaluates the property-level clauses of the cell, any of which failing confirms
+        out["native"] = "confirmed"
+        out["signature"] = "%s:%s" % (fails[0].clause.split("::")[-1], fails[0].detail)
     else:
         out["native"] = "spurious"
     return out
